@@ -121,7 +121,7 @@ def run(chk):
         found += chk.violation('deep-adjacency', msg, {'kind': 'deep', 'case': case})
     if not found:
         for c in bad_img[:2]:
-            chk.violation('image-mismatch', 'GetImage disagrees with the model (code %d)' % c['code'], {'kind': 'image-corr', 'case': c})
+            chk.violation('image-mismatch', 'GetImage disagrees with the model (code %d)' % c['code'], {'kind': 'image-corr', 'case': c}, found_input=False)
         for c in bad_cells[:2]:
             chk.violation('cell-mismatch', 'implementation cell differs from model cell', {'kind': 'cells-corr', 'case': c})
 
